@@ -3,6 +3,7 @@ package h
 import (
 	"fmt"
 	"net/url"
+	"strings"
 	"time"
 )
 
@@ -93,6 +94,13 @@ func BuildData(d DataSpec) any {
 		Num: 4.5, Empty: []string{}, Depth: d.Depth, Href: "/p/" + tag + "?a=1&b=2", Sty: "color:green;margin:" + fmt.Sprint(d.Variant) + "px",
 		hidden: "hidden-" + tag,
 		Cmap:   map[string]bool{"active": true, "big": d.Flag, "off": false, "wide": true, "zebra": d.Variant%2 == 0},
+	}
+	if d.Big {
+		for i := 4; i <= 13; i++ {
+			pd.M[fmt.Sprintf("k%d", i)] = fmt.Sprintf("v%d-%s", i, tag)
+			pd.Cmap[fmt.Sprintf("c%d", i)] = i%2 == 0
+		}
+		pd.HTML = "<b>bold-" + tag + "</b>" + strings.Repeat("<i>pad</i>", 40)
 	}
 	switch d.Shape {
 	case "rich":
